@@ -74,7 +74,8 @@ class TrajectoryConstraintsRemover(engines.engine.Engine, CompilerMixin):
     def resulting_problem_kind(
         problem_kind: ProblemKind, compilation_kind: Optional[CompilationKind] = None
     ) -> ProblemKind:
-        new_kind = problem_kind.clone()
+        # the problem is grounded first
+        new_kind = Grounder.resulting_problem_kind(problem_kind)
         if new_kind.has_trajectory_constraints() or new_kind.has_state_invariants():
             new_kind.unset_constraints_kind("TRAJECTORY_CONSTRAINTS")
             new_kind.unset_constraints_kind("STATE_INVARIANTS")
